@@ -22,12 +22,16 @@ let () = iter_lines (fun line ->
                 r_autocorrect = false;
                 r_callbacks = List.init (int_of_string ncb) (fun i -> CbUser (nat_of_int i)) } in
       (* what the application did with the body before handing the response over *)
-      let (r, early) = (match made_seq.[0] with
-        | '0' -> (r, []) | '1' -> (make_sequence r, [])
-        | 'g' -> ((match ensure_sequence r with Some r' -> r' | None -> r), [])
-        | 'd' -> (set_data r (item (sub1 made_seq)), [])
-        | 'f' -> let (r', closed) = freeze (s_of (sub1 made_seq)) r in (r', if closed then [EWrapped] else [])
+      let step (r, early) tok = (match tok.[0] with
+        | '0' -> (r, early) | '1' -> (make_sequence r, early)
+        | 'g' -> ((match ensure_sequence r with Some r' -> r' | None -> r), early)
+        | 'd' -> (set_data r (item (sub1 tok)), early)
+        | 'f' -> let (r', closed) = freeze (s_of (sub1 tok)) r in (r', early @ (if closed then [EWrapped] else []))
+        | 'w' -> ((match stream_write r (item (sub1 tok)) with Some r' -> r' | None -> r), early)
+        | 'a' -> (raw_append r (item (sub1 tok)), early)
+        | 'c' -> (set_length_header r (s_of (sub1 tok)), early)
         | _ -> failwith "pre") in
+      let (r, early) = List.fold_left step (r, []) (String.split_on_char ';' made_seq) in
       (match wsgi_response_id r (b is_head) with
        | Err e -> perr e
        | Ok ((s, l), h) ->
